@@ -99,6 +99,13 @@ func H_Linear() {
 				case opChanges:
 					_, ch, _, _ := t.GetChanges()
 					r.nchanges = len(ch)
+					// a consumer of the change set looks at the records it was given
+					for _, c := range ch {
+						if c.New == nil {
+							r.nchanges = -1
+						}
+						_ = c.Old
+					}
 					_ = t.GetMissingNodeKeys()
 					_ = t.GetChangeCount()
 				case opSave:
